@@ -117,6 +117,8 @@ type PE struct {
 	failed  string // set when an unsupported construct was met (extraction undecided)
 	steps   int
 	inlineDepth int
+	// selOracle supplies values for field reads the analysis treats as inputs (e.g. expr.Type)
+	selOracle func(pe *PE, st *peState, sel *ast.SelectorExpr) (Val, bool)
 }
 
 func newPE(u *Universe, info *types.Info, fn *ast.FuncDecl) *PE {
@@ -179,6 +181,11 @@ func (pe *PE) eval(st *peState, e ast.Expr) Val {
 	case *ast.SelectorExpr:
 		if v, ok := st.sel[types.ExprString(x)]; ok {
 			return v
+		}
+		if pe.selOracle != nil {
+			if v, ok := pe.selOracle(pe, st, x); ok {
+				return v
+			}
 		}
 		if base := pe.eval(st, x.X); base.K == vZeroStruct {
 			if b, ok := pe.info.TypeOf(x).Underlying().(*types.Basic); ok {
@@ -620,8 +627,8 @@ func (pe *PE) evalCond(st *peState, e ast.Expr) []condRes {
 	if v.K == vBool {
 		return []condRes{{v.B, st}}
 	}
-	// unknown condition: fork, record the assumption
-	txt := types.ExprString(e)
+	// unknown condition: fork, record the assumption (text independent of local names)
+	txt := pe.normText(st, e)
 	s1, s2 := st.clone(), st.clone()
 	s1.assumed = append(s1.assumed, txt)
 	s2.assumed = append(s2.assumed, "!("+txt+")")
@@ -983,7 +990,7 @@ func (pe *PE) caseMatch(st *peState, tag ast.Expr, list []ast.Expr) (matched, un
 				case tv.K == vSym && cv.K == vInt:
 					res = pe.symCompare(rs, tv.Sym, cv.I, true)
 				default:
-					txt := types.ExprString(tag) + " == " + types.ExprString(ce)
+					txt := pe.normText(rs, tag) + " == " + pe.normText(rs, ce)
 					s1, s2 := rs.clone(), rs.clone()
 					s1.assumed = append(s1.assumed, txt)
 					s2.assumed = append(s2.assumed, "!("+txt+")")
@@ -1078,7 +1085,24 @@ func findMachineLoop(fn *ast.FuncDecl) (body *ast.BlockStmt, loop ast.Stmt) {
 }
 
 // stmtsAfterLabel returns the labeled statement and everything after it in the function body
+// stmtsAfterLabel: the statements from the top-level label onwards; label "" = the first top-level label that a
+// goto of the function targets (label names are not relied upon)
 func stmtsAfterLabel(fn *ast.FuncDecl, label string) []ast.Stmt {
+	if label == "" {
+		targets := map[string]bool{}
+		ast.Inspect(fn, func(n ast.Node) bool {
+			if b, ok := n.(*ast.BranchStmt); ok && b.Tok == token.GOTO && b.Label != nil {
+				targets[b.Label.Name] = true
+			}
+			return true
+		})
+		for _, s := range fn.Body.List {
+			if ls, ok := s.(*ast.LabeledStmt); ok && targets[ls.Label.Name] {
+				label = ls.Label.Name
+				break
+			}
+		}
+	}
 	for i, s := range fn.Body.List {
 		if ls, ok := s.(*ast.LabeledStmt); ok && ls.Label.Name == label {
 			return append([]ast.Stmt{ls.Stmt}, fn.Body.List[i+1:]...)
@@ -1159,4 +1183,325 @@ func (pe *PE) inlineCall(st *peState, call *ast.CallExpr) (Val, bool) {
 		return Val{}, false
 	}
 	return outs[0].RetV[0], true
+}
+
+// ---- name-independent identification of locals (roles)
+
+// originField follows an expression back through the single definitions of local variables (assignments,
+// type assertions, call arguments) until a field selector named one of names is met; "" if none
+func originField(info *types.Info, fn *ast.FuncDecl, e ast.Expr, names ...string) string {
+	seen := map[types.Object]bool{}
+	var walk func(e ast.Expr, depth int) string
+	walk = func(e ast.Expr, depth int) string {
+		if e == nil || depth > 8 {
+			return ""
+		}
+		res := ""
+		ast.Inspect(e, func(n ast.Node) bool {
+			if res != "" {
+				return false
+			}
+			switch x := n.(type) {
+			case *ast.SelectorExpr:
+				for _, nm := range names {
+					if x.Sel.Name == nm {
+						res = nm
+						return false
+					}
+				}
+			case *ast.Ident:
+				o := info.Uses[x]
+				if o == nil || seen[o] {
+					return true
+				}
+				if v, ok := o.(*types.Var); !ok || v.IsField() {
+					return true
+				}
+				seen[o] = true
+				for _, rhs := range definitionsOf(info, fn, o) {
+					if r := walk(rhs, depth+1); r != "" {
+						res = r
+						return false
+					}
+				}
+			}
+			return true
+		})
+		return res
+	}
+	return walk(e, 0)
+}
+
+// definitionsOf lists the right-hand sides assigned to local object o in fn
+func definitionsOf(info *types.Info, fn *ast.FuncDecl, o types.Object) []ast.Expr {
+	var out []ast.Expr
+	ast.Inspect(fn, func(n ast.Node) bool {
+		switch x := n.(type) {
+		case *ast.AssignStmt:
+			for i, l := range x.Lhs {
+				if identObj(info, l) != o {
+					continue
+				}
+				if len(x.Rhs) == len(x.Lhs) {
+					out = append(out, x.Rhs[i])
+				} else if len(x.Rhs) == 1 {
+					out = append(out, x.Rhs[0])
+				}
+			}
+		case *ast.ValueSpec:
+			for i, nm := range x.Names {
+				if info.Defs[nm] == o {
+					if i < len(x.Values) {
+						out = append(out, x.Values[i])
+					} else if len(x.Values) == 1 {
+						out = append(out, x.Values[0])
+					}
+				}
+			}
+		case *ast.RangeStmt:
+			if identObj(info, x.Key) == o || (x.Value != nil && identObj(info, x.Value) == o) {
+				out = append(out, x.X)
+			}
+		}
+		return true
+	})
+	return out
+}
+
+// localsInOrder lists the local variables of fn (parameters and results included) in declaration order
+func localsInOrder(info *types.Info, fn *ast.FuncDecl) []*types.Var {
+	var out []*types.Var
+	seen := map[types.Object]bool{}
+	ast.Inspect(fn, func(n ast.Node) bool {
+		if id, ok := n.(*ast.Ident); ok {
+			if v, ok := info.Defs[id].(*types.Var); ok && !v.IsField() && !seen[v] {
+				seen[v] = true
+				out = append(out, v)
+			}
+		}
+		return true
+	})
+	return out
+}
+
+// switchTagVars: local variables used as the tag of a switch statement inside node, outermost first
+func switchTagVars(info *types.Info, node ast.Node) []types.Object {
+	var out []types.Object
+	ast.Inspect(node, func(n ast.Node) bool {
+		if sw, ok := n.(*ast.SwitchStmt); ok && sw.Tag != nil {
+			if o := identObj(info, sw.Tag); o != nil {
+				dup := false
+				for _, x := range out {
+					if x == o {
+						dup = true
+					}
+				}
+				if !dup {
+					out = append(out, o)
+				}
+			}
+		}
+		return true
+	})
+	return out
+}
+
+// assignedOnlyLocalConsts: local int variables every assignment of which (inside node) stores a local constant
+func stateLikeVars(info *types.Info, fn *ast.FuncDecl) []types.Object {
+	consts := map[types.Object]bool{}
+	ast.Inspect(fn, func(n ast.Node) bool {
+		if id, ok := n.(*ast.Ident); ok {
+			if c, ok := info.Defs[id].(*types.Const); ok {
+				consts[c] = true
+			}
+		}
+		return true
+	})
+	return constAssignedVars(info, fn, func(c types.Object) bool { return consts[c] })
+}
+
+// constAssignedVars: local variables every assignment of which stores a named constant accepted by isConst
+// (at least two such assignments), in order of first assignment
+func constAssignedVars(info *types.Info, fn *ast.FuncDecl, isConst func(types.Object) bool) []types.Object {
+	consts := map[types.Object]bool{}
+	ast.Inspect(fn, func(n ast.Node) bool {
+		if id, ok := n.(*ast.Ident); ok {
+			if c, ok := info.Uses[id].(*types.Const); ok && isConst(c) {
+				consts[c] = true
+			}
+			if c, ok := info.Defs[id].(*types.Const); ok && isConst(c) {
+				consts[c] = true
+			}
+		}
+		return true
+	})
+	count := map[types.Object]int{}
+	bad := map[types.Object]bool{}
+	var order []types.Object
+	note := func(l ast.Expr, r ast.Expr) {
+		o := identObj(info, l)
+		v, ok := o.(*types.Var)
+		if !ok || v.IsField() {
+			return
+		}
+		if ro := identObj(info, r); ro != nil && consts[ro] {
+			if count[o] == 0 {
+				order = append(order, o)
+			}
+			count[o]++
+			return
+		}
+		bad[o] = true
+	}
+	ast.Inspect(fn, func(n ast.Node) bool {
+		switch x := n.(type) {
+		case *ast.AssignStmt:
+			if len(x.Lhs) == len(x.Rhs) {
+				for i := range x.Lhs {
+					note(x.Lhs[i], x.Rhs[i])
+				}
+			}
+		case *ast.ValueSpec:
+			for i, nm := range x.Names {
+				if i < len(x.Values) {
+					note(nm, x.Values[i])
+				}
+			}
+		case *ast.IncDecStmt:
+			if o := identObj(info, x.X); o != nil {
+				bad[o] = true
+			}
+		}
+		return true
+	})
+	var out []types.Object
+	for _, o := range order {
+		if !bad[o] && count[o] >= 2 {
+			out = append(out, o)
+		}
+	}
+	return out
+}
+
+// counterVars: local integer variables that node increments (x++, x += 1, x = x + 1), in order of appearance
+func counterVars(info *types.Info, node ast.Node) []types.Object {
+	var out []types.Object
+	add := func(o types.Object) {
+		if o == nil {
+			return
+		}
+		if v, ok := o.(*types.Var); !ok || v.IsField() {
+			return
+		}
+		for _, x := range out {
+			if x == o {
+				return
+			}
+		}
+		out = append(out, o)
+	}
+	ast.Inspect(node, func(n ast.Node) bool {
+		switch x := n.(type) {
+		case *ast.IncDecStmt:
+			if x.Tok == token.INC {
+				add(identObj(info, x.X))
+			}
+		case *ast.AssignStmt:
+			if x.Tok == token.ADD_ASSIGN && len(x.Lhs) == 1 {
+				if v, ok := constInt(info, x.Rhs[0]); ok && v == 1 {
+					add(identObj(info, x.Lhs[0]))
+				}
+			}
+			if x.Tok == token.ASSIGN && len(x.Lhs) == 1 && len(x.Rhs) == 1 {
+				if be, ok := ast.Unparen(x.Rhs[0]).(*ast.BinaryExpr); ok && be.Op == token.ADD {
+					if identObj(info, be.X) != nil && identObj(info, be.X) == identObj(info, x.Lhs[0]) {
+						if v, ok := constInt(info, be.Y); ok && v == 1 {
+							add(identObj(info, x.Lhs[0]))
+						}
+					}
+				}
+			}
+		}
+		return true
+	})
+	return out
+}
+
+// normText renders an expression with every local variable replaced by its symbolic value ($p1) or its type
+// ($error, $rune): assumption texts do not depend on what locals are called
+func (pe *PE) normText(st *peState, e ast.Expr) string {
+	var cp func(e ast.Expr) ast.Expr
+	cp = func(e ast.Expr) ast.Expr {
+		switch x := e.(type) {
+		case *ast.Ident:
+			o := pe.info.Uses[x]
+			if o == nil {
+				o = pe.info.Defs[x]
+			}
+			if v, ok := o.(*types.Var); ok && !v.IsField() && v.Parent() != nil && v.Pkg() != nil && v.Parent() != v.Pkg().Scope() {
+				if val, has := st.env[o]; has && val.K == vSym {
+					return &ast.Ident{Name: "$" + val.Sym}
+				}
+				return &ast.Ident{Name: "$" + typeShort(v.Type())}
+			}
+			return x
+		case *ast.SelectorExpr:
+			return &ast.SelectorExpr{X: cp(x.X), Sel: x.Sel}
+		case *ast.IndexExpr:
+			return &ast.IndexExpr{X: cp(x.X), Index: cp(x.Index)}
+		case *ast.BinaryExpr:
+			return &ast.BinaryExpr{X: cp(x.X), Op: x.Op, Y: cp(x.Y)}
+		case *ast.UnaryExpr:
+			return &ast.UnaryExpr{Op: x.Op, X: cp(x.X)}
+		case *ast.ParenExpr:
+			return cp(x.X)
+		case *ast.StarExpr:
+			return &ast.StarExpr{X: cp(x.X)}
+		case *ast.CallExpr:
+			n := &ast.CallExpr{Fun: cp(x.Fun)}
+			for _, a := range x.Args {
+				n.Args = append(n.Args, cp(a))
+			}
+			return n
+		}
+		return e
+	}
+	return types.ExprString(cp(e))
+}
+
+// selfAppendedLocal: the single local slice variable that node extends with x = append(x, …) (nil if none or several)
+func selfAppendedLocal(info *types.Info, node ast.Node) types.Object {
+	var res types.Object
+	multi := false
+	ast.Inspect(node, func(n ast.Node) bool {
+		as, ok := n.(*ast.AssignStmt)
+		if !ok || len(as.Lhs) != 1 || len(as.Rhs) != 1 {
+			return true
+		}
+		call, ok := as.Rhs[0].(*ast.CallExpr)
+		if !ok || len(call.Args) < 1 {
+			return true
+		}
+		id, _ := ast.Unparen(call.Fun).(*ast.Ident)
+		if id == nil {
+			return true
+		}
+		if bi, isB := info.Uses[id].(*types.Builtin); !isB || bi.Name() != "append" {
+			return true
+		}
+		o := identObj(info, as.Lhs[0])
+		if v, ok := o.(*types.Var); !ok || v.IsField() || o != identObj(info, call.Args[0]) {
+			return true
+		}
+		if res == nil {
+			res = o
+		} else if res != o {
+			multi = true
+		}
+		return true
+	})
+	if multi {
+		return nil
+	}
+	return res
 }
